@@ -5,7 +5,8 @@ of the stack semantics stated in C12.
 middleware spec : {'kind': 'pass' | 'short' | 'answer-all' | 'swallow' | 'rewrite-request' | 'rewrite-response', 'method'?, 'params'?}
                   short: answers calls itself, lets notifications end unanswered; answer-all: answers every element itself, notifications
                   too (an access-control middleware); swallow: returns "no response" for every element, calls too
-handler spec    : {'kind': 'identity' | 'annotate' | 'replace'}  or  {'kind': 'reuse', 'of': j} - the SAME callable as the j-th handler
+handler spec    : {'kind': 'identity' | 'annotate' | 'replace' | 'mutate'}  (mutate: changes the code of the RECEIVED error object in place
+                  and returns that same object)  or  {'kind': 'reuse', 'of': j} - the SAME callable as the j-th handler
                   built so far (an audit hook registered under several keys / twice in one list)
 handler table   : {'generic': [handler...], 'codes': [[code, [handler...]], ...]}
 """
@@ -32,7 +33,7 @@ class Events:
 
 
 def _req_view(request: Any) -> List[Any]:
-    p = request.params
+    p = copy.deepcopy(request.params)      # a snapshot: the method may consume its arguments later
     return [request.method, request.id, list(p) if isinstance(p, tuple) else p]
 
 
@@ -111,6 +112,9 @@ def build_handlers(table: Optional[Dict[str, Any]], ev: Events, is_async: bool, 
                 return error
             if kind == 'annotate':
                 return pjrpc.exc.JsonRpcError(code=error.code, message=f"annot{n}", data={'annot': n})
+            if kind == 'mutate':
+                error.code = REPLACE_BASE + 50 + n
+                return error
             return pjrpc.exc.JsonRpcError(code=REPLACE_BASE + n, message='replaced', data=error.code)
 
         if is_async:
@@ -189,6 +193,8 @@ def expect_stack(text: str, registry: List[Dict[str, Any]], behaviours: Dict[str
                 err, lib = {'code': err['code'], 'message': f"annot{n}", 'data': {'annot': n}}, False
             elif kind == 'replace':
                 err, lib = {'code': REPLACE_BASE + n, 'message': 'replaced', 'data': err['code']}, False
+            elif kind == 'mutate':
+                err = {**err, 'code': REPLACE_BASE + 50 + n}      # same object, same message / data; the per-code handlers were chosen by the RAISED code
         if chain:
             classes.append('handlers/ran')
         if el.id is None:
